@@ -93,6 +93,43 @@ theorem link_links (cfg : Cfg) (n : Net) (via : Via) (s r : Nat) (l : Link)
           · exact Or.inr ⟨e, hg⟩
           · exact Or.inl (List.mem_filter.mp e).1
 
+/-- `receiverRejects` only comes out of `Net.link` after the gate said yes -/
+theorem link_receiverRejects_gate (cfg : Cfg) (n : Net) (via : Via) (s r : Nat) (n' : Net)
+    (h : n.link cfg via s r = (n', .receiverRejects)) : gate cfg via (n.chan s) (n.chan r) = some true := by
+  unfold Net.link at h
+  split at h
+  · cases h
+  · split at h
+    · cases h
+    · cases h
+    · rename_i hg
+      dsimp only at h
+      split at h
+      · cases h
+      · split at h
+        · split at h
+          · cases h
+          · exact hg
+        · cases h
+
+theorem relink_chan (cfg : Cfg) (n : Net) (via : Via) (s r : Nat) :
+    (n.relink cfg via s r).1.chan = n.chan := by
+  unfold Net.relink
+  split
+  · rfl
+  · exact link_chan cfg n via s r
+
+theorem relink_links (cfg : Cfg) (n : Net) (via : Via) (s r : Nat) (l : Link)
+    (hl : l ∈ (n.relink cfg via s r).1.links) :
+    l ∈ n.links ∨ (l = ⟨via, s, r, (n.chan r).strict⟩ ∧ gate cfg via (n.chan s) (n.chan r) = some true) := by
+  unfold Net.relink at hl
+  split at hl
+  · rename_i n' heq
+    rcases List.mem_cons.mp hl with e | e
+    · exact Or.inr ⟨e, link_receiverRejects_gate cfg n via s r n' heq⟩
+    · exact Or.inl (List.mem_filter.mp e).1
+  · exact link_links cfg n via s r l hl
+
 /-- what the gate's yes means for a both-hinted pair with a strict receiver -/
 theorem gate_strict_typed (cfg : Cfg) (via : Via) (s r : Chan) (hs hr : Hint)
     (h1 : s.hint = some hs) (h2 : r.hint = some hr) (h3 : r.strict = true)
@@ -108,10 +145,19 @@ theorem link_AcceptedChecked (cfg : Cfg) (n : Net) (via : Via) (s r : Nat)
   · exact h l hold hst hs hr e1 e2
   · exact gate_strict_typed cfg via _ _ hs hr e1 e2 hst hg
 
+theorem relink_AcceptedChecked (cfg : Cfg) (n : Net) (via : Via) (s r : Nat)
+    (h : n.AcceptedChecked cfg) : (n.relink cfg via s r).1.AcceptedChecked cfg := by
+  intro l hl hst hs hr e1 e2
+  rw [relink_chan] at e1 e2
+  rcases relink_links cfg n via s r l hl with hold | ⟨rfl, hg⟩
+  · exact h l hold hst hs hr e1 e2
+  · exact gate_strict_typed cfg via _ _ hs hr e1 e2 hst hg
+
 theorem step_AcceptedChecked (cfg : Cfg) (n : Net) (op : Op) (h : n.AcceptedChecked cfg) :
     (n.step cfg op).AcceptedChecked cfg := by
   cases op with
   | link via s r => exact link_AcceptedChecked cfg n via s r h
+  | relink via s r => exact relink_AcceptedChecked cfg n via s r h
   | strict i b =>
     intro l hl hst hs hr e1 e2
     rw [Net.step, setStrict_hint] at e1 e2
@@ -150,6 +196,14 @@ theorem link_NowChecked (cfg : Cfg) (n : Net) (via : Via) (s r : Nat)
   · exact h l hold hst hs hr e1 e2
   · exact gate_strict_typed cfg via _ _ hs hr e1 e2 hst hg
 
+theorem relink_NowChecked (cfg : Cfg) (n : Net) (via : Via) (s r : Nat)
+    (h : n.NowChecked cfg) : (n.relink cfg via s r).1.NowChecked cfg := by
+  intro l hl hst hs hr e1 e2
+  rw [relink_chan] at e1 e2 hst
+  rcases relink_links cfg n via s r l hl with hold | ⟨rfl, hg⟩
+  · exact h l hold hst hs hr e1 e2
+  · exact gate_strict_typed cfg via _ _ hs hr e1 e2 hst hg
+
 theorem deactivate_NowChecked (cfg : Cfg) (n : Net) (i : Nat) (h : n.NowChecked cfg) :
     (n.setStrict i false).NowChecked cfg := by
   intro l hl hst hs hr e1 e2
@@ -175,6 +229,7 @@ theorem step_NowChecked (cfg : Cfg) (n : Net) (op : Op) (hop : op.noActivation =
     (h : n.NowChecked cfg) : (n.step cfg op).NowChecked cfg := by
   cases op with
   | link via s r => exact link_NowChecked cfg n via s r h
+  | relink via s r => exact relink_NowChecked cfg n via s r h
   | strict i b =>
     cases b with
     | false => exact deactivate_NowChecked cfg n i h
